@@ -5,7 +5,7 @@
 # passes without it.  Prints one line per fact; exit 0 iff all four required facts hold.  Removes the worktree.
 set -u
 demo=$(readlink -f "$1")
-name=$(basename "$demo" | sed -E 's/^C[0-9]+_//')     # staged as Cxx_seeddemoN, lives in the worktree as seeddemoN (run.sh may use that path)
+name=$(basename "$demo" | sed -E 's/^C[0-9]+_(r[0-9]+_)?//')     # staged as Cxx_seeddemoN, lives in the worktree as seeddemoN (run.sh may use that path)
 work=$(mktemp -d /tmp/vet.XXXXXX)
 trap 'git -C /repo worktree remove --force "$work/wt" >/dev/null 2>&1; rm -rf "$work"' EXIT
 git -C /repo worktree add -q --detach "$work/wt" HEAD || exit 3
